@@ -3,6 +3,7 @@
 a sample re-run through the pint binary)."""
 import json
 import os
+import random
 import vlib
 from vlib import prints, write_ndjson, read_ndjson, MachineryError
 
@@ -104,12 +105,17 @@ def run(ctx, cases_override=None):
     if cases_override is None:
         cases = []
 
-        def gen(name, text, **kw):
+        def gen(name, text, cap=0, **kw):
             r = ctx.tlc("DispatchC07", name, files={name: text, "C07Base.tla": base_text}, timeout=3000,
                         workers=(4 if "simulate" in kw else W), **kw)
             cs = [v[0] for v in prints(r, "CASE")]
             if not cs:
                 raise MachineryError("GEN %s produced no cases" % name)
+            if "simulate" in kw:
+                # TLC's trace count is not a hard bound: keep a seed-determined sample of the distinct cases
+                cs = sorted({json.dumps(c, sort_keys=True) for c in cs})
+                random.Random(ctx.seed).shuffle(cs)
+                cs = [json.loads(c) for c in cs[:cap]]
             return cs
         BOTH, PR = ("lf", "crlf"), ("none", "expired")
         if th:
@@ -117,12 +123,12 @@ def run(ctx, cases_override=None):
             cases += gen("c07_gen0.cfg", cfg([1], [2], ALL_RULES, ["rule", "file"], True, False, False, "EmitCase"))
             cases += gen("c07_gen1.cfg", cfg([2], [1, 3, 4], ALL_RULES, ["rule", "file"], True, False, True, "EmitCase", eols=BOTH))
             cases += gen("c07_gen2.cfg", cfg([1, 2], [1, 2, 3, 4], ALL_RULES, ["rule", "file"], False, True, False, "EmitCase", eols=BOTH, priors=PR),
-                         simulate=1500, depth=6)
+                         cap=6000, simulate=400, depth=7)
         else:
             # every (rule, check) pair with a problem: `# pint disable <name>` above the rule, file/disable on top
             cases += gen("c07_gen0.cfg", cfg([1], [2], ALL_RULES, ["rule", "file"], True, False, True, "EmitCase"))
             cases += gen("c07_gen1.cfg", cfg([1, 2], [1, 2, 3, 4], ALL_RULES, ["rule", "file"], True, True, False, "EmitCase", eols=BOTH, priors=PR),
-                         simulate=250, depth=6)
+                         cap=500, simulate=40, depth=7)
         seen, uniq = set(), []
         for c in cases:
             k = json.dumps(c, sort_keys=True)
